@@ -40,10 +40,21 @@ def execute_run(mod, run, known):
     try:
         world.reset_world(run.get("cfg", {}).get("provider", "zoneinfo"))
         mod.execute(run, res)
-    except BaseException as e:  # harness bug, never a property verdict
+    except BaseException as e:
         if isinstance(e, (KeyboardInterrupt, SystemExit)):
             raise
-        res.harness_error = "".join(traceback.format_exception(type(e), e, e.__traceback__))[-3000:]
+        frames = traceback.extract_tb(e.__traceback__)
+        lib = [f for f in frames if "/icalendar/" in f.filename.replace("\\", "/") and "/icalsim/" not in f.filename]
+        inner_is_harness = bool(frames) and "/icalsim/" in frames[-1].filename
+        if lib and not inner_is_harness:
+            # raised inside the library (or below it) during an operation where the workload expects no
+            # exception at all: on a tree where the property holds this never happens, so it is a verdict
+            # about the library, not a harness bug
+            where = f"{lib[-1].filename.replace(chr(92), '/').split('/icalendar/')[-1]}:{lib[-1].name}"
+            res.violate(f"{getattr(mod, 'ID', '?')}/unexpected-exception:{type(e).__name__}@{where}",
+                        max(res.steps - 1, 0), "".join(traceback.format_exception(type(e), e, e.__traceback__))[-1200:])
+        else:  # harness bug, never a property verdict
+            res.harness_error = "".join(traceback.format_exception(type(e), e, e.__traceback__))[-3000:]
     return res
 
 
@@ -118,6 +129,10 @@ def serve(prop, mod):
         # the signature being minimised / replayed must surface as a violation even when it is a listed
         # known finding; every other listed signature stays classified as known (the violation list is capped)
         ks = known - set(req.get("unmask", []))
+        # "history": earlier runs of the same (simulated-process-hosting) interpreter, executed first and
+        # discarded; only the last run is reported.  Used when a violation depends on what ran before it.
+        for earlier in req.get("history", []):
+            execute_run(mod, earlier, ks)
         res = execute_run(mod, req["run"], ks)
         sys.stdout.write(json.dumps(res.summary(with_obs=req.get("with_obs", False))) + "\n")
         sys.stdout.flush()
